@@ -183,6 +183,7 @@ func Main(tier, replay string) {
 				}
 				return cfg
 			}}
+		schemesChecked := map[string]bool{}
 		handle := func(o scen.Outcome, single bool) {
 			res := o.Res
 			hard := ""
@@ -271,6 +272,15 @@ func Main(tier, replay string) {
 				}
 				// (3) documented security == effective alternatives, both versions
 				for ver, d := range docs {
+					// every declared scheme is declared as configured (type, location, flows and their scopes)
+					if k := o.Dir + ver; !schemesChecked[k] {
+						schemesChecked[k] = true
+						for _, fd := range spec.Validate(d, ver, o.Project.Config) {
+							if fd.Rule == "security-schemes-as-configured" {
+								run.Report(core.Violation{Oracle: "declared-schemes-as-configured", Features: map[string]string{"version": ver, "config": cs.Name}, What: ver + " " + fd.Where + ": " + fd.What, Case: c})
+							}
+						}
+					}
 					found := map[string]bool{}
 					for _, op := range d.Ops() {
 						if !strings.Contains(op.Path, c.ID) {
@@ -306,8 +316,8 @@ func Main(tier, replay string) {
 						names = append(names, k)
 					}
 					sort.Strings(names)
-					if strings.Join(names, ",") != "s1,s2" {
-						run.Report(core.Violation{Oracle: "security-schemes-as-configured", Features: feat("version", ver), What: fmt.Sprintf("components.securitySchemes has %v, configuration declares s1,s2", names), Case: c})
+					if strings.Join(names, ",") != "s1,s2,s9" {
+						run.Report(core.Violation{Oracle: "security-schemes-as-configured", Features: feat("version", ver), What: fmt.Sprintf("components.securitySchemes has %v, configuration declares s1,s2,s9", names), Case: c})
 					}
 				}
 				// (4) enforced security (routes file) == effective alternatives, hidden routes included
